@@ -930,3 +930,78 @@ def _c05_accessor(mode, robust):
             if not np.array_equal(band[:, 0, xx], o) or abs(float(ds["sgrid"].values[0, xx]) - np.float32(np.log10(l))) > 1e-6:
                 probs.append(f"pixel {xx}: accessor result differs from the kernel with the documented defaults")
     return {"violates": bool(probs), "why": probs}
+
+
+# ------------------------------------------------------------------ C06
+def c06_relations(kind, y=None, w=None, lam=None, c=0, a=0, b=0, kernel=None, relation=None, data=None, nodata=-3000, p=0.9,
+                  l0=None, lstep=None, grid=3):
+    from hdc.algo.ops.ws2d import ws2d
+    rng = np.random.default_rng(37)
+    if kind == "l1":
+        y = np.array(unjson(y), dtype="float64")
+        w = np.array(unjson(w), dtype="float64")
+        lam, c, a, b = float(lam), float(c), float(a), float(b)
+        n = len(y)
+        z0 = ws2d(y, lam, w)
+        scale = max(1.0, float(np.max(np.abs(z0))), abs(c))
+        probs = []
+        if np.max(np.abs(ws2d(y + c, lam, w) - (z0 + c))) > 1e-6 * scale:
+            probs.append("offset")
+        if np.max(np.abs(ws2d(y[::-1].copy(), lam, w[::-1].copy()) - z0[::-1])) > 1e-6 * scale:
+            probs.append("reversal")
+        line = a + b * np.arange(n)
+        yl = np.where(w > 0, line, y)
+        if np.max(np.abs(ws2d(yl, lam, w) - line)) > 1e-6 * max(1.0, float(np.max(np.abs(line)))):
+            probs.append("linear")
+        ym = np.where(w > 0, y, y + 1234.5)
+        if np.max(np.abs(ws2d(ym, lam, w) - z0)) > 1e-6 * scale:
+            probs.append("zero-weight cells")
+        return {"violates": bool(probs), "why": probs}
+    valid = np.array([v is not None for v in data])
+    p = float(p) if 0 < float(p) < 1 else 0.9
+    lam = float(lam) if lam is not None and 1e-3 <= float(lam) <= 1e6 else 10.0
+    grids = []
+    if l0 is not None and -4 <= float(l0) <= 4 and 0.05 <= float(lstep) <= 3:
+        grids.append(np.array([float(l0) + k * float(lstep) for k in range(int(grid))]))
+    grids += [np.arange(-2, 4.2, 0.2), np.arange(-1.8, 4.2, 0.4)]
+    series = []
+    base = np.array([0 if v is None else float(v) for v in data])
+    series.append((base, valid))
+    for L in (12, 24, 36, 36):
+        t = np.arange(L)
+        s = np.round(3000 + 2500 * np.sin(2 * np.pi * t / 12.0) + rng.normal(0, 400, L))
+        vm = np.array([valid[int(i * len(valid) / L)] for i in range(L)])
+        series.append((s, vm))
+    offs = [int(c), -1500, 700, -3000, 2500]
+    for s, vm in series:
+        if relation == "linear":
+            s = float(a) + float(b) * np.arange(len(s)) if (a or b) else 500.0 + 25.0 * np.arange(len(s))
+        nmin = 5 if kernel.startswith("ws2dwcv") else 2
+        if vm.sum() < nmin or np.any(s[vm] == nodata):
+            continue
+        y0 = np.where(vm, s, nodata).astype("float64")
+        for g in grids[:2]:
+            kw = dict(lam=lam, p=p, llas=g.astype("float64"), robust=False, lc=0.7)
+            try:
+                o0, l0_ = _run_smoother(kernel, y0, nodata, **kw)
+            except Exception as e:  # noqa
+                return {"violates": True, "why": f"raised {type(e).__name__}"}
+            if relation == "linear":
+                if np.max(np.abs(o0 - np.round(s))) > 1:
+                    return {"violates": True, "why": "linear series not returned unchanged", "y": y0, "out": o0}
+                continue
+            if relation == "reversal":
+                o1, l1_ = _run_smoother(kernel, y0[::-1].copy(), nodata, **kw)
+                same_l = l0_ is None or abs(l0_ - l1_) <= 1e-9 * abs(l0_)
+                if not same_l or np.max(np.abs(o1[::-1] - o0)) > 1:
+                    return {"violates": True, "why": "time reversal", "y": y0, "lopt": [l0_, l1_], "maxdiff": float(np.max(np.abs(o1[::-1] - o0))), "llas": g}
+                continue
+            for cc in offs:
+                if np.max(np.abs(s[vm] + cc)) > 10000 or np.any(s[vm] + cc == nodata + cc):
+                    continue
+                y1 = np.where(vm, s + cc, nodata + cc).astype("float64")
+                o1, l1_ = _run_smoother(kernel, y1, nodata + cc, **kw)
+                same_l = l0_ is None or abs(l0_ - l1_) <= 1e-9 * abs(l0_)
+                if not same_l or np.max(np.abs((o1 - cc) - o0)) > 1:
+                    return {"violates": True, "why": f"offset {cc}", "y": y0, "lopt": [l0_, l1_], "maxdiff": float(np.max(np.abs((o1 - cc) - o0))), "llas": g}
+    return {"violates": False}
